@@ -560,6 +560,10 @@ impl PngImage {
 
             prev_pass = line.pass;
         }
+        #[cfg(feature = "verif")]
+        if let Some(tap) = crate::verif::tap() {
+            tap.filtered(self, filter, optimize_alpha, &filtered);
+        }
         filtered
     }
 }
